@@ -300,19 +300,37 @@ func firstWord(s string) string {
 	return s
 }
 
-func clearRawHeaders(h *cose.Headers) {
-	h.RawProtected = nil
-	h.RawUnprotected = nil
+func clearRawHeaders(h *cose.Headers) { discardRawHeaders(h, false) }
+
+// discardRawHeaders drops the retained raw buckets of a layer and of every countersignature nested
+// in it: by assigning nil, or (trunc) by truncating to a zero-length non-nil slice — both are
+// "no retained bytes" for the encoder.
+func discardRawHeaders(h *cose.Headers, trunc bool) {
+	if trunc {
+		if h.RawProtected != nil {
+			h.RawProtected = h.RawProtected[:0]
+		} else {
+			h.RawProtected = []byte{}
+		}
+		if h.RawUnprotected != nil {
+			h.RawUnprotected = h.RawUnprotected[:0]
+		} else {
+			h.RawUnprotected = []byte{}
+		}
+	} else {
+		h.RawProtected = nil
+		h.RawUnprotected = nil
+	}
 	for _, v := range h.Unprotected {
 		switch t := v.(type) {
 		case *cose.Countersignature:
 			if t != nil {
-				clearRawHeaders(&t.Headers)
+				discardRawHeaders(&t.Headers, trunc)
 			}
 		case []*cose.Countersignature:
 			for _, c := range t {
 				if c != nil {
-					clearRawHeaders(&c.Headers)
+					discardRawHeaders(&c.Headers, trunc)
 				}
 			}
 		}
@@ -334,8 +352,8 @@ func opReenc(kind string, data []byte, mode, n string) string {
 			if err = m.UnmarshalCBOR(cur); err != nil {
 				return strings.Join(append(outs, "decerr"), " ")
 			}
-			if mode == "clear" {
-				clearRawHeaders(&m.Headers)
+			if mode == "clear" || mode == "trunc" {
+				discardRawHeaders(&m.Headers, mode == "trunc")
 			}
 			b, err = m.MarshalCBOR()
 		case "s1u":
@@ -343,8 +361,8 @@ func opReenc(kind string, data []byte, mode, n string) string {
 			if err = m.UnmarshalCBOR(cur); err != nil {
 				return strings.Join(append(outs, "decerr"), " ")
 			}
-			if mode == "clear" {
-				clearRawHeaders(&m.Headers)
+			if mode == "clear" || mode == "trunc" {
+				discardRawHeaders(&m.Headers, mode == "trunc")
 			}
 			b, err = m.MarshalCBOR()
 		case "sm":
@@ -352,10 +370,10 @@ func opReenc(kind string, data []byte, mode, n string) string {
 			if err = m.UnmarshalCBOR(cur); err != nil {
 				return strings.Join(append(outs, "decerr"), " ")
 			}
-			if mode == "clear" {
-				clearRawHeaders(&m.Headers)
+			if mode == "clear" || mode == "trunc" {
+				discardRawHeaders(&m.Headers, mode == "trunc")
 				for _, s := range m.Signatures {
-					clearRawHeaders(&s.Headers)
+					discardRawHeaders(&s.Headers, mode == "trunc")
 				}
 			}
 			b, err = m.MarshalCBOR()
@@ -364,8 +382,8 @@ func opReenc(kind string, data []byte, mode, n string) string {
 			if err = s.UnmarshalCBOR(cur); err != nil {
 				return strings.Join(append(outs, "decerr"), " ")
 			}
-			if mode == "clear" {
-				clearRawHeaders(&s.Headers)
+			if mode == "clear" || mode == "trunc" {
+				discardRawHeaders(&s.Headers, mode == "trunc")
 			}
 			b, err = s.MarshalCBOR()
 		case "key":
